@@ -16,6 +16,12 @@ Print Assumptions C13_optimize.
 Theorem C13_flatten : forall r, in_range r 0 -> rate_spec r 0 (flatten r).
 Proof. exact flatten_meets_spec. Qed.
 Print Assumptions C13_flatten.
+(* equivalence in the sharper reading: one more nanosecond of Interval and the returned rate is strictly slower than the
+   original, one more element of Quantity and it is strictly faster *)
+Theorem C13_speed_within_rounding : forall r m r', in_range r m -> is_valid r = None -> recalculate r m = inl r' ->
+  qty r' * ivl r < qty r * (ivl r' + 1) /\ qty r * ivl r' < (qty r' + 1) * ivl r.
+Proof. exact recalculate_within_one_ns. Qed.
+Print Assumptions C13_speed_within_rounding.
 (* regression: the pinned code (before the fix) returned an invalid rate without an error *)
 Theorem C13_refuted_old : exists r m, in_range r m /\ is_valid r = None /\ 0 <= m /\
   exists r', recalculate_old r m = inl r' /\ is_valid r' <> None.
